@@ -62,7 +62,94 @@ def cases(tier, seed):
             for slot in (0, 3, 7, 9):
                 for after in ("W", "CW", "BW", "CWW"):
                     out.append({"frame": fr, "kind": kind, "slot": slot, "usage": "given", "dup": "none", "order": 0, "after": after})
+    # projected edges declared through the operation's own calls (project_edge / project_side with edges=True): all
+    # sequences of one and two calls (thorough: three, thinned) with two labels
+    P = proj_calls()
+    for fr in frames[:1] if tier == "quick" else frames[:2]:
+        for i in range(len(P)):
+            out.append({"frame": fr, "what": "projcalls", "calls": [i]})
+            for j in range(len(P)):
+                out.append({"frame": fr, "what": "projcalls", "calls": [i, j]})
+        if tier == "thorough":
+            thin = list(range(0, len(P), 3))
+            for i in thin:
+                for j in thin:
+                    for k in thin:
+                        out.append({"frame": fr, "what": "projcalls", "calls": [i, j, k]})
     return out
+
+
+def proj_calls():
+    P = []
+    for k, (c1, c2) in enumerate(bm.EDGES):
+        P.append(("edge", c1, c2, "geoA"))
+        P.append(("edge", c2, c1, "geoB"))
+    for side in ("bottom", "top", "left", "right", "front", "back"):
+        P.append(("side", side, "geoA"))
+    for side in ("top", "front"):
+        P.append(("side", side, "geoB"))
+    return P
+
+
+def run_projcalls(case):
+    import classy_blocks as cb
+
+    coords = dict(case)
+    violations = []
+
+    def bad(clause, detail):
+        violations.append({"clause": clause, "coords": coords, "detail": detail})
+
+    P = hexa_points(case["frame"])
+    loft = cb.Loft(cb.Face(P[:4]), cb.Face(P[4:]))
+    for ax in range(3):
+        loft.chop(ax, count=2)
+    calls = proj_calls()
+    model = {}
+    for i in case["calls"]:
+        c = calls[i]
+        if c[0] == "edge":
+            loft.project_edge(c[1], c[2], c[3])
+            model.setdefault(frozenset((c[1], c[2])), set()).add(c[3])
+        else:
+            loft.project_side(c[1], c[2], edges=True)
+            cs = set(bm.FACES[c[1]])
+            for ed in bm.EDGES:
+                if set(ed) <= cs:
+                    model.setdefault(frozenset(ed), set()).add(c[2])
+    coords["calls_text"] = [str(calls[i]) for i in case["calls"]]
+    mesh = cb.Mesh()
+    mesh.add(loft)
+    mesh.add_geometry({"geoA": ["type searchablePlane", "planeType pointAndNormal", "point (0 0 0)", "normal (0 0 1)"], "geoB": ["type searchablePlane", "planeType pointAndNormal", "point (0 0 0)", "normal (0 1 0)"]})
+    path = os.path.join(runner.scratch_dir(), f"c07_{os.getpid()}")
+    try:
+        mesh.write(path)
+    except Exception as err:
+        bad("write-raised", f"{type(err).__name__}: {err}")
+        return {"violations": violations, "outcome": "raised", "nontrivial": True}
+    d = foamdict.parse(open(path).read())
+    v = d["blocks"][0]["v"]
+    got = {}
+    for e in d["edges"]:
+        key = None
+        for c1, c2 in bm.EDGES:
+            if {v[c1], v[c2]} == set(e["v"]):
+                key = frozenset((c1, c2))
+        if key is None:
+            bad("entry-not-a-block-edge", f"{e['kind']} {e['v']}")
+            continue
+        if key in got:
+            bad("edge-listed-twice", f"corners {sorted(key)}")
+        if e["kind"] != "project":
+            bad("wrong-kind", f"corners {sorted(key)}: {e['kind']}")
+            continue
+        if len(set(e["labels"])) != len(e["labels"]):
+            bad("project-labels", f"corners {sorted(key)}: a label listed twice: {e['labels']}")
+        got[key] = set(e["labels"])
+    for key in sorted(set(model) | set(got), key=sorted):
+        if model.get(key, set()) != got.get(key, set()):
+            bad("project-labels", f"edge between corners {sorted(key)}: written {sorted(got.get(key, []))}, declared {sorted(model.get(key, []))}")
+    return {"violations": violations, "outcome": f"projcalls:{len(model)}edges:{max(len(x) for x in model.values())}labels", "nontrivial": len(case["calls"]) > 1}
 
 
 # ----------------------------------------------------------------------------
@@ -245,6 +332,8 @@ def build(case):
 
 
 def run_case(case):
+    if case.get("what") == "projcalls":
+        return run_projcalls(case)
     kind = case["kind"]
     coords = dict(case)
     violations = []
